@@ -352,29 +352,33 @@ def api_history_and_dtype(ctx, group, dtype_clause=True, skip=()):
     old = torch.get_default_dtype()
     try:
         for name, fn in _api_registry(group):
-            torch.set_default_dtype(torch.float32)
-            first = [y.clone() for y in _flat_tensors(fn())]
-            r = _flat_tensors(fn())
-            mutated = 0
-            for y in r:
-                if (y.is_floating_point() or y.is_complex()) and not y.requires_grad:
-                    try:
-                        y.mul_(-3.0).add_(1.0)
-                        mutated += 1
-                    except RuntimeError:
-                        pass
-            second = _flat_tensors(fn())
-            ctx.case(f"api-history {group} {name}", nontrivial=mutated > 0, sample_every=5)
-            ctx.traces += 1
-            d = max([_dev(u, v) for u, v in zip(second, first)] + [0.0]) if len(first) == len(second) else float("inf")
-            if d > 1e-13:
-                ctx.violation(f"{name.split('(')[0]}/result-depends-on-call-history", {"call": name, "history": ["call", "in-place edit of the returned tensor(s)", "same call"],
-                              "relative_deviation_of_second_result": d, "default_dtype": "float32", "argument_dtype": "float64"}, True)
+            firsts = {}
+            broken = False
+            for default in (torch.float32, torch.float64):
+                torch.set_default_dtype(default)
+                first = [y.clone() for y in _flat_tensors(fn())]
+                firsts[default] = first
+                r = _flat_tensors(fn())
+                mutated = 0
+                for y in r:
+                    if (y.is_floating_point() or y.is_complex()) and not y.requires_grad:
+                        try:
+                            y.mul_(-3.0).add_(1.0)
+                            mutated += 1
+                        except RuntimeError:
+                            pass
+                second = _flat_tensors(fn())
+                ctx.case(f"api-history {group} {name} default={default}", nontrivial=mutated > 0, sample_every=5)
+                ctx.traces += 1
+                d = max([_dev(u, v) for u, v in zip(second, first)] + [0.0]) if len(first) == len(second) else float("inf")
+                if d > 1e-13:
+                    ctx.violation(f"{name.split('(')[0]}/result-depends-on-call-history", {"call": name, "history": ["call", "in-place edit of the returned tensor(s)", "same call"],
+                                  "relative_deviation_of_second_result": d, "default_dtype": str(default), "argument_dtype": "float64"}, True)
+                    broken = True
+                    break
+            if broken or not dtype_clause or name in skip or name.startswith(("so3_generators", "su2_generators")):   # no tensor argument: default dtype by design
                 continue
-            if not dtype_clause or name in skip or name.startswith(("so3_generators", "su2_generators")):   # no tensor argument: default dtype by design
-                continue
-            torch.set_default_dtype(torch.float64)
-            ref = _flat_tensors(fn())
+            first, ref = firsts[torch.float32], firsts[torch.float64]
             ctx.case(f"api-dtype {group} {name}", nontrivial=True, sample_every=5)
             bad_dtype = [str(u.dtype) for u, v in zip(first, ref) if u.dtype != v.dtype]
             d = max([_dev(u, v) for u, v in zip(first, ref)] + [0.0]) if len(first) == len(ref) else float("inf")
@@ -446,3 +450,81 @@ def module_instance_independence(ctx, group):
         if d > 1e-6:
             ctx.violation(f"{name.split('(')[0]}/instances-share-state", {"module": name, "history": ["m1 = build(); y = m1(x)", "in-place edit of every buffer and parameter of m1",
                           "m2 = build() (same RNG seed); m2(x)"], "relative_deviation_of_m2_from_first_result": d}, True)
+
+
+
+def c03_k_spellings(ctx, o3):
+    """D_from_angles(alpha,beta,gamma,k) for every spelling of k (None, python int, int tensor, bool-like float tensor) and every
+    position of the scalar blocks: dtype of the angles, block diagonal of the per-irrep matrices, p**k on improper elements"""
+    a, b, c = (torch.tensor(v, dtype=torch.float64) for v in ([0.3, -1.2], [1.1, 0.4], [-0.7, 2.9]))
+    for irs in ["0e+1o", "0o+1o+2e", "1o+0o", "2x0o+1e", "0e", "0o", "1o+0e+2o+0o"]:
+        I = o3.Irreps(irs)
+        for kname, k, kval in [("None", None, [0, 0]), ("int tensor [0,1]", torch.tensor([0, 1]), [0, 1]), ("int64 scalar tensor 1", torch.tensor(1), [1, 1]),
+                               ("float64 tensor [1,0]", torch.tensor([1.0, 0.0], dtype=torch.float64), [1, 0]), ("float32 tensor [1,1]", torch.tensor([1.0, 1.0]), [1, 1])]:
+            for dt in (torch.float64, torch.float32):
+                aa, bb, cc = a.to(dt), b.to(dt), c.to(dt)
+                ctx.case(f"k-spelling {irs} k={kname} {dt}", nontrivial=True, sample_every=9)
+                ctx.traces += 1
+                try:
+                    D = I.D_from_angles(aa, bb, cc) if k is None else I.D_from_angles(aa, bb, cc, k)
+                except Exception as e:  # noqa: BLE001
+                    ctx.violation("Irreps.D_from_angles/k-spelling-raises", {"irreps": irs, "k": kname, "angle_dtype": str(dt), "error": repr(e)[:300]}, True)
+                    return
+                blocks = []
+                for mul, ir in I:
+                    Dl = o3.wigner_D(ir.l, aa.double(), bb.double(), cc.double())
+                    sgn = torch.tensor([float(ir.p) ** kv for kv in kval], dtype=torch.float64)
+                    blocks += [Dl * sgn[:, None, None]] * mul
+                ref = torch.stack([torch.block_diag(*[B[z] for B in blocks]) for z in range(2)])
+                want_dt = dt if (k is None or not k.is_floating_point() or k.dtype == dt) else torch.promote_types(dt, k.dtype)
+                tol = 1e-12 if D.dtype == torch.float64 and dt == torch.float64 else 5e-5
+                dev = (D.double() - ref).abs().max().item() if D.shape == ref.shape else float("inf")
+                if D.dtype != want_dt or not dev <= tol:
+                    ctx.violation("Irreps.D_from_angles/k-spelling", {"irreps": irs, "k": kname, "angle_dtype": str(dt), "result_dtype": str(D.dtype), "expected_dtype": str(want_dt),
+                                  "angles": [a.tolist(), b.tolist(), c.tolist()], "max_deviation_from_block_diagonal_of_wigner_D_times_p^k": dev}, True)
+                    return
+
+
+def c18_radius_independence(ctx, io):
+    """signal_xyz / with_peaks_at depend on the direction only: radii exactly 1, within 1e-5..1e-7 of 1, tiny and huge"""
+    g = torch.Generator().manual_seed(int(ctx.seed) + 18)
+    for lmax, p_val, p_arg in [(3, 1, -1), (4, 1, 1), (2, -1, -1)]:
+        st = io.SphericalTensor(lmax, p_val, p_arg)
+        sig = torch.randn(st.dim, generator=g, dtype=torch.float64)
+        u = torch.nn.functional.normalize(torch.randn(7, 3, generator=g, dtype=torch.float64), dim=-1)
+        try:
+            ref = st.signal_xyz(sig, u)
+        except ValueError:
+            continue      # recorded known finding (p_val=-1 with l=0), reported by the main check
+        for scale in [1.0 + 4e-6, 1.0 - 3e-7, 1.0 + 1e-9, 1e-3, 37.5, "float32-normalised"]:
+            r = torch.nn.functional.normalize(u.float(), dim=-1).double() if scale == "float32-normalised" else u * scale
+            want = st.signal_xyz(sig, torch.nn.functional.normalize(r, dim=-1)) if scale == "float32-normalised" else ref
+            got = st.signal_xyz(sig, r)
+            dev = (got - want).abs().max().item() / (1 + want.abs().max().item())
+            ctx.case(f"radius-independence lmax={lmax} scale={scale}", nontrivial=True, sample_every=5)
+            ctx.traces += 1
+            if not dev <= 1e-11:
+                ctx.violation("SphericalTensor.signal_xyz/depends-on-radius", {"lmax": lmax, "p_val": p_val, "p_arg": p_arg, "radius": str(scale), "points": r.tolist(),
+                              "signal": sig.tolist(), "relative_deviation_from_value_at_normalised_direction": dev}, True)
+                return
+
+
+def c07_inplace_activation_history(ctx, normalize2mom, second_moment):
+    """normalize2mom constants do not depend on what was normalised before, in particular not on in-place activations"""
+    hist = []
+    inplace = [("torch.nn.ReLU(inplace=True)", torch.nn.ReLU(inplace=True)), ("torch.relu_", torch.relu_), ("lambda x: x.tanh_()", lambda x: x.tanh_()),
+               ("torch.nn.SiLU(inplace=True)", torch.nn.SiLU(inplace=True))]
+    later = [("torch.tanh", torch.tanh), ("torch.sigmoid", torch.sigmoid), ("torch.nn.functional.silu", torch.nn.functional.silu),
+             ("torch.nn.functional.softplus", torch.nn.functional.softplus), ("lambda x: x**2", lambda x: x ** 2)]
+    for iname, f in inplace:
+        normalize2mom(f)
+        hist.append(f"normalize2mom({iname})")
+        for lname, h in later:
+            n = normalize2mom(h)
+            m2 = second_moment(n)
+            ctx.case(f"normalize2mom after in-place {iname}: {lname}", nontrivial=True, sample_every=4)
+            ctx.traces += 1
+            if not abs(m2 - 1.0) <= 5e-3:
+                ctx.violation("normalize2mom/constant-depends-on-earlier-calls", {"history": hist + [f"normalize2mom({lname})"], "second_moment_by_quadrature": m2,
+                              "expected": 1.0, "tolerance": 5e-3}, True)
+                return
